@@ -1,4 +1,6 @@
 import Bxh.Model.Gov
+import Bxh.Model.GovTable
+import Bxh.Gen.GovPriority
 import Driver.StratEngine
 import Driver.Util
 /-! Trace validation of the ballot state machine: each line carries a proposal state as the real
@@ -64,6 +66,58 @@ def step1 (ws : List String) : String :=
     | _ => "bad-op"
   | _ => "bad-op"
 
-def step (_ : Unit) (ws : List String) : Unit × String := ((), step1 ws)
+-- ------------------------------------------------------------------------------------ proposal table steps
+open Bxh.GovTable in
+def parseSt (s : String) : Option St :=
+  if s == "proposed" then some .proposed else if s == "approve" then some .approved
+  else if s == "reject" then some .rejected else if s == "pause" then some .paused else none
+
+open Bxh.GovTable in
+def showSt : St → String
+  | .proposed => "proposed" | .approved => "approve" | .rejected => "reject" | .paused => "pause"
+
+/-- priority of a governance event, from the table regenerated out of governance.go -/
+def prioOf (ev : String) : Option Nat := (Bxh.Gen.govPriority.find? (·.1 == ev)).map (·.2)
+
+open Bxh.GovTable in
+/-- `obj/event/status/lock` -/
+def parseEntry (w : String) : Option Entry :=
+  match w.splitOn "/" with
+  | [obj, ev, st, lk] =>
+    match prioOf ev, parseSt st with
+    | some p, some s =>
+      if lk == "-" then some { obj := obj, prio := p, status := s, lock := none }
+      else lk.toNat?.map (fun n => { obj := obj, prio := p, status := s, lock := some n })
+    | _, _ => none
+  | _ => none
+
+open Bxh.GovTable in
+def parseTOp (w : String) : Option Bxh.GovTable.Op :=
+  match w.splitOn "/" with
+  | ["submit", obj, ev] => (prioOf ev).map (fun p => .submit obj p)
+  | ["conclude", i, r] => i.toNat?.map (fun n => .conclude n (r == "approve"))
+  | ["electorate", i, r] => i.toNat?.map (fun n => .electorate n (r == "approve"))
+  | ["withdraw", i] => i.toNat?.map (fun n => .withdraw n)
+  | ["endobj", obj] => some (.endObj obj)
+  | ["unlockobj", obj] => some (.unlockObj obj)
+  | _ => none
+
+open Bxh.GovTable in
+/-- `tstep <op> <entry>…`: the statuses (and lock pointers) of the table after the operation -/
+def tstep (ws : List String) : String :=
+  match ws with
+  | opw :: es =>
+    let ents := es.map parseEntry
+    match parseTOp opw, ents.all Option.isSome with
+    | some op, true =>
+      let t' := Bxh.GovTable.step (ents.filterMap id) op
+      "ok " ++ ",".intercalate (t'.map (fun e => showSt e.status ++ ":" ++ (match e.lock with | some l => toString l | none => "-")))
+    | _, _ => "bad-state"
+  | _ => "bad-op"
+
+def step (_ : Unit) (ws : List String) : Unit × String :=
+  match ws with
+  | "tstep" :: rest => ((), tstep rest)
+  | _ => ((), step1 ws)
 
 end Driver.GovStepEngine
